@@ -22,6 +22,9 @@ position of that top-level call sequence:
             exists/isfile/isdir -> False, info -> FileNotFoundError (this is what
             fsspec's `exists` does with *any* error of `info`)
 
+A plan value `(kind, r)` makes the same call (same op, same path) fail again the next
+r-1 times it is made (a fault that persists across retries).
+
 Positions are 1-based indices into the sequence of *faultable* top-level calls (every
 recorded op except `invalidate_cache`).  A fault whose kind does not apply to the op at
 its position degrades to 'oserr' ('stale' on a non-listing op, 'lie' on a non-stat op,
@@ -104,6 +107,7 @@ class RecFS(LocalFileSystem):
         self.fired = []          # (position, kind applied, op, relpath)
         self.on_write_closed = None    # callback(relpath) after a file written through us is closed
         self._tl = threading.local()
+        self._sticky = {}
 
     # ------------------------------------------------------------ helpers
     def rel(self, p):
@@ -128,6 +132,17 @@ class RecFS(LocalFileSystem):
         self.trace.append((op,) + rp)
         self.nfault += 1
         kind = self.plan.get(self.nfault)
+        if kind is None and (op,) + rp in self._sticky:
+            kind, left = self._sticky[(op,) + rp]
+            if left <= 1:
+                del self._sticky[(op,) + rp]
+            else:
+                self._sticky[(op,) + rp] = (kind, left - 1)
+        elif isinstance(kind, tuple):
+            # (kind, r): the same call (same op, same path) also fails the next r-1 times
+            kind, r = kind
+            if r > 1:
+                self._sticky[(op,) + rp] = (kind, r - 1)
         if kind is None:
             return None
         if kind in ('stale', 'stale0') and op not in LIST_OPS:
